@@ -114,8 +114,13 @@ def run(ctx):
                 equal_mw = n_mw > 0 and rng.random() < 0.5
                 base["middleware_objects_equal_across_requests"] = equal_mw
                 run_ids = [0]
+                falsy = n_instr == 1 and not partials and nest is None and rng.random() < 0.3
+                base["falsy_instrumentation_object"] = falsy
                 for config in configs:
                     def extra():
+                        instr_mon.FALSY_SINGLE[0] = falsy
+                        if falsy:
+                            ctx.count("runs_with_falsy_instrumentation_object")
                         run_ids[0] += 1
                         rid = (id(run_ids), run_ids[0])
                         run_ids.append(rid)
@@ -217,6 +222,7 @@ def subscriptions(ctx, log, n_cases):
     from ..gen.world import Obj
     from .c17 import Source, SubCase
 
+    instr_mon.FALSY_SINGLE[0] = False
     rng = ctx.rng("subscriptions")
     loop = asyncio.new_event_loop()
     try:
